@@ -171,3 +171,87 @@ theorem runChunk_inv (fl : Bool) : ∀ (samples : List (Int × Hist)) (c0 : Chun
       · exact runChunk_inv fl samples r.chunk _ ci (by rw [← ci.flt (p.1, p.2) (by simp)]; exact hpf) hw' c h2
 
 end Prom.Hist
+
+namespace Prom.Hist
+
+/-- whether a stream is flagged does not depend on the index the count starts from -/
+theorem unsoundAt_none_shift : ∀ (l : List (Int × Hist)) (prev : Option Hist) (j j' : Nat),
+    unsoundAt prev j l = none → unsoundAt prev j' l = none
+  | [], _, _, _, _ => rfl
+  | (t, h) :: rest, prev, j, j', hn => by
+    by_cases hc : h.hint = .notReset ∧ (!h.stale) = true ∧ (!prevOk prev h) = true
+    · rw [unsoundAt_cons_pos _ _ _ _ _ hc] at hn; cases hn
+    · rw [unsoundAt_cons _ _ _ _ _ hc] at hn ⊢
+      exact unsoundAt_none_shift rest (some h) (j + 1) (j' + 1) hn
+
+/-- a prefix of an unflagged stream is unflagged -/
+theorem unsoundAt_take : ∀ (l : List (Int × Hist)) (prev : Option Hist) (j m : Nat),
+    unsoundAt prev j l = none → unsoundAt prev j (l.take m) = none
+  | [], _, _, _, _ => by simp [unsoundAt]
+  | _ :: _, _, _, 0, _ => by simp [unsoundAt]
+  | (t, h) :: rest, prev, j, m + 1, hn => by
+    by_cases hc : h.hint = .notReset ∧ (!h.stale) = true ∧ (!prevOk prev h) = true
+    · rw [unsoundAt_cons_pos _ _ _ _ _ hc] at hn; cases hn
+    · rw [unsoundAt_cons _ _ _ _ _ hc] at hn
+      rw [List.take_succ_cons, unsoundAt_cons _ _ _ _ _ hc]
+      exact unsoundAt_take rest (some h) (j + 1) m hn
+
+/-- dropping samples from the front of an unflagged stream can only flag the new first sample -/
+theorem unsoundAt_drop : ∀ (l : List (Int × Hist)) (prev : Option Hist) (j k : Nat),
+    unsoundAt prev j l = none →
+    unsoundAt none 0 (l.drop k) = none ∨ unsoundAt none 0 (l.drop k) = some 0 ∨ k = 0
+  | l, _, _, 0, _ => Or.inr (Or.inr rfl)
+  | [], _, _, _ + 1, _ => Or.inl (by simp [unsoundAt])
+  | (t, h) :: rest, prev, j, k + 1, hn => by
+    have hrest : unsoundAt (some h) (j + 1) rest = none := by
+      by_cases hc : h.hint = .notReset ∧ (!h.stale) = true ∧ (!prevOk prev h) = true
+      · rw [unsoundAt_cons_pos _ _ _ _ _ hc] at hn; cases hn
+      · rw [unsoundAt_cons _ _ _ _ _ hc] at hn; exact hn
+    rw [List.drop_succ_cons]
+    cases k with
+    | zero =>
+      -- the stream now starts at `rest`
+      cases rest with
+      | nil => exact Or.inl (by simp [unsoundAt])
+      | cons x rest' =>
+        obtain ⟨t', h'⟩ := x
+        by_cases hc : h'.hint = .notReset ∧ (!h'.stale) = true ∧ (!prevOk none h') = true
+        · exact Or.inr (Or.inl (by rw [List.drop_zero, unsoundAt_cons_pos _ _ _ _ _ hc]))
+        · left
+          rw [List.drop_zero, unsoundAt_cons _ _ _ _ _ hc]
+          have hc' : ¬ (h'.hint = .notReset ∧ (!h'.stale) = true ∧ (!prevOk (some h) h') = true) := by
+            intro hx
+            rw [unsoundAt_cons_pos _ _ _ _ _ hx] at hrest; cases hrest
+          rw [unsoundAt_cons _ _ _ _ _ hc'] at hrest
+          exact unsoundAt_none_shift _ _ _ _ hrest
+    | succ k' =>
+      rcases unsoundAt_drop rest (some h) (j + 1) (k' + 1) hrest with h1 | h1 | h1
+      · exact Or.inl h1
+      · exact Or.inr (Or.inl h1)
+      · cases h1
+
+theorem unsoundAt_take_some : ∀ (l : List (Int × Hist)) (prev : Option Hist) (j m i : Nat),
+    unsoundAt prev j l = some i → unsoundAt prev j (l.take m) = some i ∨ unsoundAt prev j (l.take m) = none
+  | [], _, _, _, _, h => by simp [unsoundAt] at h
+  | _ :: _, _, _, 0, _, _ => Or.inr (by simp [unsoundAt])
+  | (t, h) :: rest, prev, j, m + 1, i, hn => by
+    by_cases hc : h.hint = .notReset ∧ (!h.stale) = true ∧ (!prevOk prev h) = true
+    · rw [unsoundAt_cons_pos _ _ _ _ _ hc] at hn
+      rw [List.take_succ_cons, unsoundAt_cons_pos _ _ _ _ _ hc]; exact Or.inl hn
+    · rw [unsoundAt_cons _ _ _ _ _ hc] at hn
+      rw [List.take_succ_cons, unsoundAt_cons _ _ _ _ _ hc]
+      exact unsoundAt_take_some rest (some h) (j + 1) m i hn
+
+/-- any contiguous sub-range of a hint-sound stream: only its first sample can be flagged -/
+theorem hintsSound_subrange (l : List (Int × Hist)) (h : hintsSound l = true) (k m : Nat) :
+    unsoundAt none 0 ((l.drop k).take m) = none ∨ unsoundAt none 0 ((l.drop k).take m) = some 0 := by
+  have h0 : unsoundAt none 0 l = none := by
+    simp only [hintsSound, Option.isNone_iff_eq_none] at h; exact h
+  rcases unsoundAt_drop l none 0 k h0 with h1 | h1 | h1
+  · exact Or.inl (unsoundAt_take _ _ _ m h1)
+  · rcases unsoundAt_take_some _ _ _ m _ h1 with h2 | h2
+    · exact Or.inr h2
+    · exact Or.inl h2
+  · subst h1; exact Or.inl (unsoundAt_take _ _ _ m (by simpa using h0))
+
+end Prom.Hist
